@@ -1489,5 +1489,11 @@ func (s *keysorter) Swap(i, j int) {
 
 // Swap is part of sort.Interface.
 func (s *keysorter) Less(i, j int) bool {
-	return s.hashes[s.index[i]] < s.hashes[s.index[j]]
+	hi, hj := s.hashes[s.index[i]], s.hashes[s.index[j]]
+	if hi != hj {
+		return hi < hj
+	}
+	// Distinct keys can have the same hash. The order must not depend on the
+	// order in which the keys were supplied, so fall back to the printed form.
+	return s.keys[s.index[i]].String() < s.keys[s.index[j]].String()
 }
